@@ -2,7 +2,11 @@
    (/repo/buffer.go, /repo/bufferize.go), of the buffered conversion branches of
    AssignToBytes/AssignToStr (/repo/assign_builtin.go:47-53, 90-96), of the
    Acquire/Bufferize*/Release pattern the generated cpy functions and the
-   built-in CopyTo use, and of what a client may do with a handed-out value.
+   built-in CopyTo use, of CopyTo of the built-in inspectors (/repo/stranymap.go
+   cpy: one buf.Bufferize / buf.BufferizeString per text value on every level of a
+   nested map[string]any; /repo/strings.go CopyTo: the same per element), of
+   values the client owns outside the buffer (the sources of those copies), and
+   of what a client may do with a handed-out value.
 
    Memory is explicit here (and only here): a heap of byte arrays; a Go slice is
    (array, offset, len, cap).  `append` writes in place when the data fits and
@@ -69,6 +73,28 @@ Record hand := {
 
 Record state := { st_heap : heap; st_bb : slice; st_log : list hand }.
 
+(* One text value copied by CopyTo of a BUILT-IN inspector (stranymap.go cpy, strings.go
+   CopyTo): the source value stays with the caller - outside the buffer, in memory of its
+   own -, the copy is one ByteBuffer.Bufferize / BufferizeString.
+   (source is a string?, copy is a string?, content) *)
+Definition item := (bool * bool * list ascii)%type.
+
+(* A map[string]any source, flattened in pre-order (keys are positional and irrelevant
+   here).  Go iterates a map in an unspecified order: the order of this list is ONE order;
+   every other order is another list, and the theorems hold for every list. *)
+Inductive tok :=
+| TText (ptr isstr : bool) (d : list ascii)   (* string / *string / []byte / *[]byte value: copied through the buffer *)
+| TOther                                       (* any other value (an int): stored as it is *)
+| TOpen (ind : nat)                            (* a nested map: map[string]any / *map / **map (ind = 0 / 1 / 2) *)
+| TClose.
+
+Definition items_of_toks (ts : list tok) : list item :=
+  flat_map (fun t => match t with TText _ isstr d => [(isstr, isstr, d)] | _ => [] end) ts.
+
+(* StringsInspector.CopyTo: source []string or [][]byte, destination *[]string or *[][]byte *)
+Definition items_of_strings (srcstr dststr : bool) (ds : list (list ascii)) : list item :=
+  map (fun d => (srcstr, dststr, d)) ds.
+
 Inductive op :=
 | OBufferize (d : list ascii) (extra : nat)         (* ByteBuffer.Bufferize *)
 | OBufferizeString (d : list ascii) (extra : nat)   (* ByteBuffer.BufferizeString *)
@@ -92,7 +118,19 @@ Inductive op :=
                                                      (* buffered Assign/Set into the []byte field that currently holds h_k (stale
                                                         or live), h_k itself being still held elsewhere: the buffered branch of
                                                         AssignToBytes ignores the destination's old content, exactly as OAssignBytes;
-                                                        a NEW value is handed out, h_k is not touched *).
+                                                        a NEW value is handed out, h_k is not touched *)
+| OSource (isstr : bool) (d : list ascii)            (* a value the client owns OUTSIDE the buffer (memory of its own) is put under
+                                                        observation: the source of a later Bufferize / CopyTo *)
+| OCopyMap (reuse : bool) (ts : list tok) (extra : nat)
+                                                     (* StringAnyMapInspector.CopyTo of a (nested) map[string]any into a fresh
+                                                        (reuse = false) or the previously used (true: its keys are deleted first)
+                                                        destination map: per text value, on every level, one
+                                                        buf.Bufferize / buf.BufferizeString - no Acquire/Release.  Every source
+                                                        text and every copy is handed to a holder. *)
+| OCopyStrings (reuse srcstr dststr : bool) (ds : list (list ascii)) (extra : nat)
+                                                     (* StringsInspector.CopyTo []string / [][]byte -> *[]string / *[][]byte
+                                                        (appended to the destination): per element one buf.BufferizeString /
+                                                        buf.Bufferize, converted to the destination's element type in place *).
 
 Section Step.
 Variable tight : bool.
@@ -122,6 +160,24 @@ Fixpoint copy_fields (h : heap) (bb : slice) (fs : list (bool * list ascii)) (ex
     let '(h1, bb1, x) := bufferize1 h bb isstr d extra in
     let '(h2, bb2, xs) := copy_fields h1 bb1 r extra in
     (h2, bb2, x :: xs)
+  end.
+
+(* a client-owned value outside the buffer: an array of its own, exactly filled *)
+Definition source1 (h : heap) (isstr : bool) (d : list ascii) : heap * hand :=
+  let '(h', a) := alloc h (List.length d) d in
+  (h', mk_hand isstr {| s_arr := a; s_off := 0; s_len := List.length d; s_cap := List.length d |} d).
+
+(* the copies of a built-in CopyTo: ByteBuffer.Bufferize[String] per value, the buffer's own
+   slice moves on with every call; source and copy are both logged *)
+Fixpoint copy_values (h : heap) (bb : slice) (its : list item) (extra : nat)
+  : heap * slice * list hand :=
+  match its with
+  | [] => (h, bb, [])
+  | (ss, ds, d) :: r =>
+    let '(h0, x0) := source1 h ss d in
+    let '(h1, bb1, x) := bufferize1 h0 bb ds d extra in
+    let '(h2, bb2, xs) := copy_values h1 bb1 r extra in
+    (h2, bb2, x0 :: x :: xs)
   end.
 
 (* ByteBuffer.ReleaseBytes: ignored when empty *)
@@ -202,7 +258,22 @@ Definition step (st : state) (o : op) : state :=
   | OAssignBytesInto _ d e =>
     let '(h', bb', x) := bufferize1 h bb false d e in
     {| st_heap := h'; st_bb := release bb bb'; st_log := lg ++ [x] |}
+  | OSource isstr d =>
+    let '(h', x) := source1 h isstr d in
+    {| st_heap := h'; st_bb := bb; st_log := lg ++ [x] |}
+  | OCopyMap _ ts e =>
+    let '(h', bb', xs) := copy_values h bb (items_of_toks ts) e in
+    {| st_heap := h'; st_bb := bb'; st_log := lg ++ xs |}
+  | OCopyStrings _ ss ds l e =>
+    let '(h', bb', xs) := copy_values h bb (items_of_strings ss ds l) e in
+    {| st_heap := h'; st_bb := bb'; st_log := lg ++ xs |}
   end.
+
+(* the same copies, one operation per value *)
+Definition expand_items (its : list item) (extra : nat) : list op :=
+  flat_map (fun it : item =>
+              let '(ss, ds, d) := it in
+              [OSource ss d; if ds then OBufferizeString d extra else OBufferize d extra]) its.
 
 (* NewByteBuffer(size) *)
 Definition init (size : nat) : state :=
